@@ -1,4 +1,5 @@
 import RomeaProofs.Bridge.C15
+import RomeaProofs.Bridge.C15Loop
 import RomeaProofs.Properties.C15
 
 /-!
@@ -8,6 +9,14 @@ computed by the functions translated from today's source (`Romea.Src.C15.*`, reg
 2^62 cells and whose buffer has fewer than 2^64 slots, the translated `computeCellLinearIndex_` of an in-range index — evaluated with
 the coefficients the translated `Grid::init` stores — is a valid buffer position, and different in-range indexes get different
 positions (so a write through `operator()` changes exactly the addressed cell).
+
+Part 3 (after `Bridge/C15Loop.lean`, which proves the translated `translate_2` — blanking loop nest included — equal to the model's
+`WGrid.translate`): `C15.translate_refines` and `C15.history` restated about the TRANSLATED code for DIM = 2. The state of the object is the
+triple (buffer, stored offset 0, stored offset 1) the translated `translate_2` returns; `srcRead2` reads it through the translated
+`computeCellLinearIndex_` with the coefficients of the translated `Grid::init`. `src_translate_refines_2`: after the translated translate,
+reading through the translated linear index gives `Spec.translate` of what was read before. `src_run_eq_2` / `src_history_2`: any
+sequence of writes (a `List.set` at the translated linear index — `operator()` itself is a one-line accessor that is not translated) and
+translated translations keeps that reading equal to the abstract window after the same abstract steps.
 -/
 namespace Romea.Bridge.C15
 open Romea Romea.WrapGrid Romea.C15 Romea.C15Grid
@@ -113,5 +122,228 @@ theorem src_access_3 (g : WGrid T) (h : WF g) (hs : SizeOK g.dims) (hlen : g.buf
     have := pos_inj h hi hj (by omega)
     simp only [List.cons.injEq, and_true] at this
     exact Prod.ext this.1 (Prod.ext this.2.1 this.2.2)
+
+/-! ## Part 3: `translate_refines` and `history` about the translated `translate_2` -/
+
+/-- the linear index the translated 2-axis code computes from a state's (integer) stored offsets -/
+def srcIdx2 (n0 n1 : Nat) (a0 a1 : Int) (i0 i1 : Nat) : Int :=
+  let c := Src.C15.Grid.init_2 [] n0 n1
+  Src.C15.WrappableGrid.computeCellLinearIndex__2 i0 i1 c.2.1 c.2.2.1 a0 a1 c.2.2.2.1 c.2.2.2.2
+
+/-- what the translated code reads at a logical index: the buffer at the translated linear index (state = buffer, offsets) -/
+def srcRead2 (n0 n1 : Nat) (st : List Int × Int × Int) : Window Int :=
+  fun i => st.1.getD (srcIdx2 n0 n1 st.2.1 st.2.2 (i.getD 0 0) (i.getD 1 0)).toNat default
+
+/-- the translated `translate` applied to a state, with the coefficients and sizes the translated `Grid::init` stores -/
+def srcTranslate2 (fuel n0 n1 : Nat) (st : List Int × Int × Int) (d0 d1 e : Int) : Option (List Int × Int × Int) :=
+  let c := Src.C15.Grid.init_2 [] n0 n1
+  Src.C15.WrappableGrid.translate_2 fuel st.1 e c.2.1 c.2.2.1 d0 d1 st.2.1 st.2.2 c.2.2.2.1 c.2.2.2.2
+
+/-- one operation on the translated side: assignment at the translated linear index, or the translated `translate` -/
+def srcStep2 (fuel n0 n1 : Nat) (st : List Int × Int × Int) : Op Int → Option (List Int × Int × Int)
+  | .set i v => some (st.1.set (srcIdx2 n0 n1 st.2.1 st.2.2 (i.getD 0 0) (i.getD 1 0)).toNat v, st.2.1, st.2.2)
+  | .tr δ e => srcTranslate2 fuel n0 n1 st (δ.getD 0 0) (δ.getD 1 0) e
+
+/-- a history on the translated side (`none` = some translation ran out of fuel) -/
+def srcRun2 (fuel n0 n1 : Nat) : List Int × Int × Int → List (Op Int) → Option (List Int × Int × Int)
+  | st, [] => some st
+  | st, op :: ops =>
+    match srcStep2 fuel n0 n1 st op with
+    | none => none
+    | some st' => srcRun2 fuel n0 n1 st' ops
+
+/-- the facts about a well-formed two-axis grid used below, in components -/
+private theorem two_axis (g : WGrid Int) (h : WF g) (hs : SizeOK g.dims) (n0 n1 : Nat) (hd : g.dims = [n0, n1]) :
+    ∃ o0 o1, g.off = [o0, o1] ∧ g = ⟨[n0, n1], [o0, o1], g.buf⟩ ∧ o0 < n0 ∧ o1 < n1 ∧ 0 < n0 ∧ 0 < n1 ∧ n0 < 2 ^ 62 ∧ n1 < 2 ^ 62 ∧
+      g.buf.length = n0 * n1 := by
+  have hoff := h.off_lt
+  have hbl := h.buf_len
+  rw [hd] at hoff hbl
+  have s0 : n0 < 2 ^ 62 := by have := hs 0; rw [hd] at this; exact this
+  have s1 : n1 < 2 ^ 62 := by have := hs 1; rw [hd] at this; exact this
+  have hc : cellCount [n0, n1] = n0 * n1 := by simp [cellCount]
+  cases hgo : g.off with
+  | nil => rw [hgo] at hoff; simp [InRange] at hoff
+  | cons o0 t =>
+    cases t with
+    | nil => rw [hgo] at hoff; simp [InRange] at hoff
+    | cons o1 t =>
+      cases t with
+      | cons _ _ => rw [hgo] at hoff; simp [InRange] at hoff
+      | nil =>
+        rw [hgo] at hoff
+        simp only [InRange] at hoff
+        refine ⟨o0, o1, rfl, ?_, hoff.1, hoff.2.1, by omega, by omega, s0, s1, by rw [hbl, hc]⟩
+        cases g; simp_all
+
+private theorem inRange_two {n0 n1 : Nat} {i : List Nat} (hi : InRange [n0, n1] i) :
+    ∃ i0 i1, i = [i0, i1] ∧ i0 < n0 ∧ i1 < n1 := by
+  cases i with
+  | nil => simp [InRange] at hi
+  | cons i0 t =>
+    cases t with
+    | nil => simp [InRange] at hi
+    | cons i1 t =>
+      cases t with
+      | cons _ _ => simp [InRange] at hi
+      | nil => simp only [InRange] at hi; exact ⟨i0, i1, rfl, hi.1, hi.2.1⟩
+
+/-- on the encoding of a well-formed model grid the translated linear index is the model's -/
+private theorem srcIdx2_enc (g : WGrid Int) (h : WF g) (hs : SizeOK g.dims) (hlen : g.buf.length < two64) (n0 n1 : Nat)
+    (hd : g.dims = [n0, n1]) (i : List Nat) (hi : InRange g.dims i) :
+    (srcIdx2 n0 n1 (enc2 g).2.1 (enc2 g).2.2 (i.getD 0 0) (i.getD 1 0)).toNat = g.linIdx i := by
+  obtain ⟨o0, o1, ho, _, _⟩ := two_axis g h hs n0 n1 hd
+  have hi' := hi
+  rw [hd] at hi'
+  obtain ⟨i0, i1, rfl, _, _⟩ := inRange_two hi'
+  have e := srcIndex2_eq g h hs hlen n0 n1 o0 o1 hd ho i0 i1 hi
+  simp only [enc2, ho, List.getD_cons_zero, List.getD_cons_succ]
+  show (srcIndex2 n0 n1 o0 o1 i0 i1).toNat = _
+  rw [e, Int.toNat_natCast]
+
+/-- reading the encoding of a well-formed model grid through the translated index = the model's `get` -/
+private theorem srcRead2_enc (g : WGrid Int) (h : WF g) (hs : SizeOK g.dims) (hlen : g.buf.length < two64) (n0 n1 : Nat)
+    (hd : g.dims = [n0, n1]) (i : List Nat) (hi : InRange g.dims i) : srcRead2 n0 n1 (enc2 g) i = g.get i := by
+  unfold srcRead2
+  rw [srcIdx2_enc g h hs hlen n0 n1 hd i hi]
+  rfl
+
+private theorem translate_getD (g : WGrid Int) (hl : g.dims.length = 2) (δ : List Int) (e : Int) :
+    g.translate δ e = g.translate [δ.getD 0 0, δ.getD 1 0] e := by
+  unfold WGrid.translate
+  rw [hl]
+  rfl
+
+/-- the translated `translate` on the encoding of a well-formed grid returns the encoding of the model's `translate` -/
+private theorem srcTranslate2_enc (g : WGrid Int) (h : WF g) (hs : SizeOK g.dims) (hlen : g.buf.length < two64) (n0 n1 : Nat)
+    (hd : g.dims = [n0, n1]) (δ : List Int) (e : Int) (fuel : Nat) (hfuel : g.buf.length + 1 ≤ fuel) :
+    srcTranslate2 fuel n0 n1 (enc2 g) (δ.getD 0 0) (δ.getD 1 0) e = some (enc2 (g.translate δ e)) := by
+  obtain ⟨o0, o1, ho, hg, ho0, ho1, hn0, hn1, s0, s1, hbl⟩ := two_axis g h hs n0 n1 hd
+  rw [translate_getD g (by rw [hd]; rfl) δ e]
+  have hb := translate_2_bridge_init g.buf e (δ.getD 0 0) (δ.getD 1 0) n0 n1 o0 o1 hn0 hn1 (by omega) (by omega)
+    (by rw [← hbl]; exact hlen) ho0 ho1 fuel (by rw [← hbl]; exact hfuel)
+  rw [← hg] at hb
+  simp only [srcTranslate2, enc2, ho, List.getD_cons_zero, List.getD_cons_succ]
+  exact hb
+
+private theorem spec_translate_congr (dims : List Nat) (δ : List Int) (e : Int) (w w' : Window Int)
+    (hw : ∀ i, InRange dims i → w i = w' i) (i : List Nat) : Spec.translate dims δ e w i = Spec.translate dims δ e w' i := by
+  unfold Spec.translate
+  split
+  · rename_i hin
+    exact hw _ (Romea.C15Map.of_inWindow hin []).1
+  · rfl
+
+/-- **`C15.translate_refines` about the translated `translate_2`.** For a well-formed two-axis grid (sizes below 2^62, fewer than 2^64
+    cells), every offset pair and every empty value, with fuel ≥ number of cells + 1: the translated `translate` (blanking loop nest,
+    offset arithmetic and all) terminates; the new state has a buffer of the same length and stored offsets inside `[0, n)`; and reading
+    it through the translated linear index gives, at every in-range logical index, `Spec.translate` of what was read before: the cell
+    `i` reads what `i + δ` read if that is inside the window on both axes, else `e`. -/
+theorem src_translate_refines_2 (g : WGrid Int) (h : WF g) (hs : SizeOK g.dims) (hlen : g.buf.length < two64) (n0 n1 : Nat)
+    (hd : g.dims = [n0, n1]) (d0 d1 e : Int) (fuel : Nat) (hfuel : g.buf.length + 1 ≤ fuel) :
+    ∃ st', srcTranslate2 fuel n0 n1 (enc2 g) d0 d1 e = some st' ∧
+      st'.1.length = g.buf.length ∧ 0 ≤ st'.2.1 ∧ st'.2.1 < n0 ∧ 0 ≤ st'.2.2 ∧ st'.2.2 < n1 ∧
+      ∀ i, InRange [n0, n1] i → srcRead2 n0 n1 st' i = Spec.translate [n0, n1] [d0, d1] e (srcRead2 n0 n1 (enc2 g)) i := by
+  obtain ⟨hwf, hdims, hget⟩ := translate_refines g h hs [d0, d1] (by rw [hd]; rfl) e
+  have hlen' : (g.translate [d0, d1] e).buf.length = g.buf.length := by rw [hwf.buf_len, h.buf_len, hdims]
+  have hd' : (g.translate [d0, d1] e).dims = [n0, n1] := by rw [hdims, hd]
+  have hs' : SizeOK (g.translate [d0, d1] e).dims := by rw [hdims]; exact hs
+  obtain ⟨p0, p1, hp, _, hp0, hp1, _⟩ := two_axis _ hwf hs' n0 n1 hd'
+  refine ⟨enc2 (g.translate [d0, d1] e), srcTranslate2_enc g h hs hlen n0 n1 hd [d0, d1] e fuel hfuel, hlen', ?_, ?_, ?_, ?_, ?_⟩
+  · simp only [enc2]; omega
+  · simp only [enc2, hp, List.getD_cons_zero]; omega
+  · simp only [enc2]; omega
+  · simp only [enc2, hp, List.getD_cons_succ, List.getD_cons_zero]; omega
+  · intro i hi
+    have hi1 : InRange g.dims i := by rw [hd]; exact hi
+    rw [srcRead2_enc _ hwf hs' (by rw [hlen']; exact hlen) n0 n1 hd' i (by rw [hd']; exact hi), hget i hi1, hd]
+    exact spec_translate_congr [n0, n1] [d0, d1] e _ _
+      (fun j hj => (srcRead2_enc g h hs hlen n0 n1 hd j (by rw [hd]; exact hj)).symm) i
+
+private theorem srcStep2_enc (g : WGrid Int) (h : WF g) (hs : SizeOK g.dims) (hlen : g.buf.length < two64) (n0 n1 : Nat)
+    (hd : g.dims = [n0, n1]) (op : Op Int) (hop : OpOK g.dims op) (fuel : Nat) (hfuel : g.buf.length + 1 ≤ fuel) :
+    srcStep2 fuel n0 n1 (enc2 g) op = some (enc2 (g.step op)) := by
+  cases op with
+  | set j v =>
+    simp only [srcStep2, WGrid.step]
+    rw [srcIdx2_enc g h hs hlen n0 n1 hd j hop]
+    rfl
+  | tr δ e => exact srcTranslate2_enc g h hs hlen n0 n1 hd δ e fuel hfuel
+
+private theorem step_keeps (g : WGrid Int) (h : WF g) (hs : SizeOK g.dims) (op : Op Int) (hop : OpOK g.dims op) :
+    WF (g.step op) ∧ (g.step op).dims = g.dims ∧ (g.step op).buf.length = g.buf.length := by
+  have h12 : WF (g.step op) ∧ (g.step op).dims = g.dims := by
+    cases op with
+    | set j v => obtain ⟨h1, h2, _⟩ := set_refines g h j hop v; exact ⟨h1, h2⟩
+    | tr δ e => obtain ⟨h1, h2, _⟩ := translate_refines g h hs δ hop.1 e; exact ⟨h1, h2⟩
+  exact ⟨h12.1, h12.2, by rw [h12.1.buf_len, h.buf_len, h12.2]⟩
+
+/-- **Any history executed by the translated code = the model's run.** Writes and translations (asserted preconditions `OpOK`) from the
+    encoding of a well-formed two-axis grid, fuel ≥ number of cells + 1 per translation: no translation runs out of fuel and the final
+    state is the encoding of the model's final grid -/
+theorem src_run_eq_2 (ops : List (Op Int)) (g : WGrid Int) (h : WF g) (hs : SizeOK g.dims) (hlen : g.buf.length < two64) (n0 n1 : Nat)
+    (hd : g.dims = [n0, n1]) (hops : ∀ op ∈ ops, OpOK g.dims op) (fuel : Nat) (hfuel : g.buf.length + 1 ≤ fuel) :
+    srcRun2 fuel n0 n1 (enc2 g) ops = some (enc2 (ops.foldl WGrid.step g)) := by
+  induction ops generalizing g with
+  | nil => rfl
+  | cons op rest ih =>
+    obtain ⟨h1, h2, h3⟩ := step_keeps g h hs op (hops op (by simp))
+    simp only [srcRun2, srcStep2_enc g h hs hlen n0 n1 hd op (hops op (by simp)) fuel hfuel, List.foldl_cons]
+    exact ih (g.step op) h1 (by rw [h2]; exact hs) (by rw [h3]; exact hlen) (by rw [h2]; exact hd)
+      (by rw [h2]; intro o ho; exact hops o (by simp [ho])) (by rw [h3]; exact hfuel)
+
+private theorem spec_fold_congr (dims : List Nat) (ops : List (Op Int)) (w w' : Window Int)
+    (hw : ∀ i, InRange dims i → w i = w' i) : ∀ i, InRange dims i →
+      (ops.foldl (Spec.step dims) w) i = (ops.foldl (Spec.step dims) w') i := by
+  induction ops generalizing w w' with
+  | nil => exact hw
+  | cons op rest ih =>
+    rw [List.foldl_cons, List.foldl_cons]
+    apply ih
+    intro i hi
+    cases op with
+    | set j v =>
+      simp only [Spec.step, Spec.set]
+      split
+      · rfl
+      · exact hw i hi
+    | tr δ e => exact spec_translate_congr dims δ e w w' hw i
+
+/-- **`C15.history` about the translated code (DIM = 2).** After any sequence of writes and translated translations, what the
+    translated code reads through its linear index at every in-range logical index is what the abstract window reads after the same
+    sequence of abstract steps, starting from what was read at the beginning -/
+theorem src_history_2 (ops : List (Op Int)) (g₀ : WGrid Int) (h : WF g₀) (hs : SizeOK g₀.dims) (hlen : g₀.buf.length < two64)
+    (n0 n1 : Nat) (hd : g₀.dims = [n0, n1]) (hops : ∀ op ∈ ops, OpOK g₀.dims op) (fuel : Nat) (hfuel : g₀.buf.length + 1 ≤ fuel) :
+    ∃ st, srcRun2 fuel n0 n1 (enc2 g₀) ops = some st ∧ st.1.length = g₀.buf.length ∧
+      ∀ i, InRange [n0, n1] i →
+        srcRead2 n0 n1 st i = (ops.foldl (Spec.step [n0, n1]) (srcRead2 n0 n1 (enc2 g₀))) i := by
+  obtain ⟨hwf, hdims, hget⟩ := history ops g₀ h hs hops
+  have hlen' : (ops.foldl WGrid.step g₀).buf.length = g₀.buf.length := by rw [hwf.buf_len, h.buf_len, hdims]
+  refine ⟨_, src_run_eq_2 ops g₀ h hs hlen n0 n1 hd hops fuel hfuel, hlen', fun i hi => ?_⟩
+  have hi0 : InRange g₀.dims i := by rw [hd]; exact hi
+  rw [srcRead2_enc _ hwf (by rw [hdims]; exact hs) (by rw [hlen']; exact hlen) n0 n1 (by rw [hdims, hd]) i
+    (by rw [hdims]; exact hi0)]
+  have := hget i hi0
+  simp only [Romea.C15.abs] at this
+  rw [this, hd]
+  exact spec_fold_congr [n0, n1] ops _ _ (fun j hj => (srcRead2_enc g₀ h hs hlen n0 n1 hd j (by rw [hd]; exact hj)).symm) i hi
+
+/-! ### Non-vacuity (a 3 × 2 grid holding 1 … 6, evaluated through the generated definitions) -/
+
+private def g32 : WGrid Int := ⟨[3, 2], [0, 0], [1, 2, 3, 4, 5, 6]⟩
+
+example : WF g32 := ⟨by simp [g32, InRange], by simp [g32, cellCount]⟩
+example : SizeOK g32.dims := by intro a; rcases a with _ | _ | a <;> simp [g32]
+example : g32.buf.length < two64 ∧ g32.buf.length + 1 ≤ 7 := by decide
+-- offsets (1, -1): logical (0, 1) reads what (1, 0) read (= 2); logical (2, 1) reads the empty value (column 3 is outside)
+example : (srcTranslate2 7 3 2 (enc2 g32) 1 (-1) 0).map (fun st => (srcRead2 3 2 st [0, 1], srcRead2 3 2 st [2, 1], srcRead2 3 2 st [0, 0]))
+    = some (2, 0, 0) := by decide
+example : Spec.translate [3, 2] [1, -1] 0 (srcRead2 3 2 (enc2 g32)) [0, 1] = 2 ∧
+    Spec.translate [3, 2] [1, -1] 0 (srcRead2 3 2 (enc2 g32)) [2, 1] = 0 := by decide
+-- offsets (5, 0): everything leaves the window
+example : (srcTranslate2 7 3 2 (enc2 g32) 5 0 9).map (fun st => (srcRead2 3 2 st [0, 0], srcRead2 3 2 st [2, 1])) = some (9, 9) := by decide
+-- a history: write, translate (1, -1), translate (5, 0)
+example : srcRun2 7 3 2 (enc2 g32) [.set [1, 0] 7, .tr [1, -1] 0, .tr [5, 0] 9] = some ([9, 9, 9, 9, 9, 9], 0, 1) := by decide
+example : srcRun2 7 3 2 (enc2 g32) [.set [1, 0] 7, .tr [1, -1] 0] = some ([0, 7, 3, 0, 0, 0], 1, 1) := by decide
 
 end Romea.Bridge.C15
